@@ -27,7 +27,9 @@ def bounds(tier):
                 "grids": ["irregular", "dyadic", "int", "mixed", "uint"], "targets": "quarter grid + out-of-range + off-grid",
                 "methods": tc.METHODS, "metrics": tc.METRICS}
     return {"max_pos": 4, "max_neg": 4, "easy": [[a, b] for a in range(4) for b in range(4)],
-            "grids": ["irregular", "dyadic", "int", "negated", "ulp", "mixed", "float32", "uint"],
+            # (no one-ulp grid: a threshold interpolated between adjacent floats cannot separate them, and the property
+            # itself compares thresholds "up to a few ulp"; C03's exact extremes are checked on that grid)
+            "grids": ["irregular", "dyadic", "int", "negated", "mixed", "float32", "uint"],
             "targets": "quarter grid + out-of-range + off-grid", "methods": tc.METHODS, "metrics": tc.METRICS}
 
 
